@@ -1503,26 +1503,34 @@ def frag_expectile_check(fn):
     return out + [assign]
 
 
-def frag_leading_raises(fn):
-    """the leading run of top-level `if …: raise …` statements of a method (after the docstring), followed by a synthetic
-    `checked = n_draws` so that the fragment has a value when every check passes"""
-    out = []
-    for s in fn.body:
-        if isinstance(s, ast.Expr) and isinstance(getattr(s, 'value', None), ast.Constant) and isinstance(s.value.value, str):
-            continue
-        if isinstance(s, ast.If) and not s.orelse and len(s.body) == 1 and isinstance(s.body[0], ast.Raise):
-            out.append(s)
-        else:
-            break
-    if not out:
-        raise Unsupported('no leading `if …: raise …` statement')
-    ln = out[-1].end_lineno or out[-1].lineno
-    assign = ast.parse('checked = n_draws').body[0]
-    for node in ast.walk(assign):
-        if hasattr(node, 'lineno'):
-            node.lineno = ln
-            node.end_lineno = ln
-    return out + [assign]
+def make_frag_leading_raises(result_name):
+    """fragment selector: the leading run of top-level `if …: raise …` statements of a method (after the docstring and any
+    nested helper definitions), followed by a synthetic `checked = <result_name>` so that the fragment has a value when every
+    check passes"""
+    def frag(fn):
+        out = []
+        for s in fn.body:
+            if isinstance(s, ast.Expr) and isinstance(getattr(s, 'value', None), ast.Constant) and isinstance(s.value.value, str):
+                continue
+            if isinstance(s, ast.FunctionDef) and not out:
+                continue
+            if isinstance(s, ast.If) and not s.orelse and len(s.body) == 1 and isinstance(s.body[0], ast.Raise):
+                out.append(s)
+            else:
+                break
+        if not out:
+            raise Unsupported('no leading `if …: raise …` statement')
+        ln = out[-1].end_lineno or out[-1].lineno
+        assign = ast.parse('checked = %s' % result_name).body[0]
+        for node in ast.walk(assign):
+            if hasattr(node, 'lineno'):
+                node.lineno = ln
+                node.end_lineno = ln
+        return out + [assign]
+    return frag
+
+
+frag_leading_raises = make_frag_leading_raises('n_draws')
 
 
 MODEL_CLASSES = ['GAM', 'LinearGAM', 'LogisticGAM', 'PoissonGAM', 'GammaGAM', 'InvGaussGAM', 'ExpectileGAM']
@@ -1567,6 +1575,10 @@ def decision_specs(trees):
                              attrs={'self._is_fitted': ('B', 'is_fitted')},
                              fragment=frag_leading_raises, frag_return='checked', raises=True,
                              what='the argument checks at the head of the method, in source order; `.error` carries the exception class, `.ok` the accepted `n_draws`'))
+    specs.append(FormulaSpec('fit_quantile_checks', 'dists', ('pygam.py', 'ExpectileGAM', 'fit_quantile', None),
+                             pre=[], params=['X', 'X', 'S', 'S', 'S', 'X'], attrs={},
+                             fragment=make_frag_leading_raises('quantile'), frag_return='checked', raises=True,
+                             what='the argument checks at the head of the method, in source order; `.error` carries the exception class, `.ok` the accepted `quantile`'))
     specs.append(FormulaSpec('within_tol', 'dists', ('pygam.py', 'ExpectileGAM', 'fit_quantile', '_within_tol'),
                              pre=[], params=['S', 'S', 'S'], self_param=False,
                              what='`np.abs(x)` ↦ `if x < 0 then -x else x`'))
